@@ -156,14 +156,14 @@ PROPS["C14"] = {
 
 PROPS["C08"] = {
     "id": "C08",
-    "lean_modules": ["JT.Props.C08"],
-    "extractors": ["bittables", "addlen"],
+    "lean_modules": ["JT.Props.C08", "JT.Props.C08Src"],
+    "extractors": ["bittables", "addlen", "golean"],
     "functional_ops": [],
     "rule": ("0x0200 bodies = 28-byte base block (alarm/status words: single bits, pairs, all-but-one, random; BCD and non-BCD time nibbles) + 0..5 additional-information items (every standard id with every admissible length, "
              "12% inadmissible lengths, unknown ids, duplicate ids); the same through 0x0704 batches of 1..3 items (10% with an announced count larger than the items present) and inside 0x0801; truncations; "
              "EXHAUSTIVELY every (standard id, length in {0..8,29,30,31}) pair alone behind a base block; all 32 single bits and all pairs of the alarm and of the status word (thorough: all pairs of the extended vehicle word too). "
              "non-trivial = decoded successfully with at least one item, or rejected."),
-    "technique": "Lean 4 proof over regenerated tables (go/ast extractor): flag ⇔ bit for every word, base-block round trip, item-list totality; differential correspondence + standard-layout oracle",
+    "technique": "closed forms of the alarm word, the status word, the 28-byte base block and the 0x0801 body proved about AlarmSignDetails.parse / StatusSignDetails.parse / T0x0200LocationItem.parse / T0x0801.Parse as TRANSLATED from the Go source on every run (C08Src) + Lean 4 proof over regenerated tables (go/ast extractor): flag ⇔ bit for every word, base-block round trip, item-list totality; differential correspondence + standard-layout oracle",
     "level_text": ("Machine-checked Lean 4 theorems: the four flag decoders' tables, REGENERATED from the Go source on every run, equal the standard's tables (kernel `decide`), and from that, for EVERY word (not an enumeration of 2^32), each alarm flag, "
                    "single-bit status flag, extended-vehicle signal and IO flag is set exactly when its standard bit is set; the admissible-length table extracted from contrastFunc equals the standard's; the 28-byte base block round-trips through the standard layout "
                    "with arbitrary trailing bytes; the item loop never panics for any byte string, rejects impossible lengths, preserves unknown items verbatim and assigns the standard big-endian values. The model (using the regenerated tables) is compared with the Go decoders on every run, "
